@@ -78,6 +78,13 @@ def check_output(inst, side, pw, ids, x, acc):
                       "replay": desc, "expected": "bytes", "observed": [m, blob]})
         return
     fields, problems = statefmt.parse(blob[1], R, side)
+    # the scalar field must be the fixed-width encoding of the scalar of THIS session: tie it to the message actually sent
+    # (which scalar the sampler drew is C11's subject)
+    if fields is not None and fields.get("x") is not None:
+        if fields["x"] != x:
+            x = fields["x"]
+        if RS.message(rp, side, R.pw_scalar(pw), x) != m[1]:
+            problems.append("xy_scalar does not describe the session: side|encode(x*G + w*M) for the stored scalar is not the message that start() returned")
     want = statefmt.state_dict(rp, side, pw, ids, x)
     if fields is not None and not problems:
         got = json.loads(blob[1].decode("ascii"))
@@ -144,6 +151,29 @@ def _orders_task(task):
             if check_restore(inst, side, pw, ids, x, order, style, acc, inb):
                 acc.seen((fam(inst), side, order, style))
             acc.n(states=1, traces=1)
+    return acc
+
+
+def _mixed_task(task):
+    """both role families on ONE parameter object in one process, in both orders"""
+    name, = task
+    acc = Acc()
+    inst, why = T.try_get(name)
+    if inst is None:
+        return acc
+    j = 0
+    for order in ("ASB", "SAB", "BSA"):
+        for pw in (b"pw", b""):
+            for side in order:
+                x = (3 + j) % inst.q
+                ids = C.ids_for(side, j)
+                keys = list(statefmt.state_dict(inst.rp, side, pw, ids, x))
+                inb = None if inst.small else [C.inbound_menu(inst, side, inst.ref.pw_scalar(pw), x)[0][1]]
+                check_output(inst, side, pw, ids, x, acc)
+                if check_restore(inst, side, pw, ids, x, keys[::-1], statefmt.STYLES[j % 4], acc, inb):
+                    acc.seen((fam(inst), side, "mixed", order))
+                acc.n(states=1, traces=1)
+                j += 1
     return acc
 
 
@@ -231,14 +261,16 @@ def run(tier, seed):
     for name in T.SHIPPED:
         for side in "ABS":
             tasks.append(("shipped", (name, side, seed)))
-    tasks.sort(key=lambda t: -{"sessions": 1, "orders": 3, "shipped": 50}[t[0]] * T.get(t[1][0]).ref.esize)
+    for name in ["T23", "E37"] + T.SHIPPED:
+        tasks.append(("mixed", (name,)))
+    tasks.sort(key=lambda t: -{"sessions": 1, "orders": 3, "shipped": 50, "mixed": 40}[t[0]] * T.get(t[1][0]).ref.esize)
     core.pmerge(_dispatch, tasks, acc)
     _golden(acc)
     return acc
 
 
 def _dispatch(t):
-    return {"sessions": _sessions_task, "orders": _orders_task, "shipped": _shipped_task}[t[0]](t[1])
+    return {"sessions": _sessions_task, "orders": _orders_task, "shipped": _shipped_task, "mixed": _mixed_task}[t[0]](t[1])
 
 
 def replay(rec):
